@@ -156,14 +156,56 @@ func compareType(in Input, e *yang.EnumType, want map[string]int64) *fail {
 	if fmt.Sprint(vals) != fmt.Sprint(wv) {
 		return &fail{"values-list-wrong", fmt.Sprint(wv), fmt.Sprint(vals)}
 	}
+	// the exported tables say the same as the accessors; a name that was never set is not defined;
+	// what an accessor returned can be changed by the caller without changing the type, and a second
+	// call answers like the first
+	if len(e.ToInt) != len(want) {
+		return &fail{"exported-table-differs", fmtMap(want), fmtMap(e.ToInt)}
+	}
+	for n, v := range want {
+		if got, ok := e.ToInt[n]; !ok || got != v {
+			return &fail{"exported-table-differs", fmtMap(want), fmtMap(e.ToInt)}
+		}
+	}
+	for _, n := range []string{"no such member", ""} {
+		if _, ok := want[n]; !ok && e.IsDefined(n) {
+			return &fail{"undefined-name-defined", n + " is not defined", "IsDefined = true"}
+		}
+	}
+	for k := range nm {
+		nm[k] = -77
+		break
+	}
+	nm["injected by the caller"] = 1
+	if len(names) > 0 {
+		names[0] = "overwritten by the caller"
+	}
+	if len(vals) > 0 {
+		vals[0] = -78
+	}
+	nm = e.NameMap()
+	if fmtMap(nm) != fmtMap(want) || fmt.Sprint(e.Values()) != fmt.Sprint(wv) || len(e.Names()) != len(want) || (len(want) > 0 && e.Names()[0] == "overwritten by the caller") {
+		return &fail{"second-call-differs", fmtMap(want), fmtMap(nm) + fmt.Sprint(e.Values(), e.Names())}
+	}
 	if !in.Bits {
+		if len(e.ToString) != len(want) {
+			return &fail{"exported-table-differs", fmt.Sprint(len(want), " values"), fmt.Sprint(e.ToString)}
+		}
 		vm := e.ValueMap()
 		if len(vm) != len(nm) {
 			return &fail{"maps-not-inverse", fmt.Sprint(len(nm)), fmt.Sprint(len(vm))}
 		}
 		for n, v := range nm {
-			if vm[v] != n || e.Name(v) != n {
+			if vm[v] != n || e.Name(v) != n || e.ToString[v] != n {
 				return &fail{"maps-not-inverse", n, vm[v]}
+			}
+		}
+		for k := range vm {
+			vm[k] = "overwritten by the caller"
+		}
+		for n, v := range nm {
+			if e.Name(v) != n || e.ValueMap()[v] != n {
+				return &fail{"second-call-differs", n, e.Name(v)}
 			}
 		}
 	}
